@@ -62,7 +62,9 @@ ASSUMPTIONS = [
     "a cache reset (replace request / fresh Schema), stream H; stream L executes every kind of structural plain assignment between two "
     "validate() calls and compares outcome / cache flag with the cache machine (op assignStructure): the stale verdicts it meets for the untracked "
     "kinds are COUNTED in the evidence (`outside_statement_stale_after_structural_setter`, Lean: cache_unsound_unseen_structural_setter, "
-    "cache_sound_all_mutators_fails_today), not reported; for the tracked kinds (argument type / default, number of fields) they are failures",
+    "cache_sound_all_mutators_fails_today), not reported; for the tracked kinds (argument type / default, number of fields) they are failures. "
+    "WITH proposed_fixes/C13-S12.patch (flag cfgCacheTracksStructure re-extracted from `_current_resolvers`) every kind is tracked: the model "
+    "resets the verdict after ANY structural assignment (Lean: cache_sound_all_mutators) and a stale verdict is a failure",
     "resolver identities recorded with the cached verdict stay alive (the fingerprint holds references): stream M drops a resolver, allocates replacements "
     "until one lands on the freed address (evidence `address_reuse_collisions`: 0 everywhere on a tree that keeps references) and requires the fresh verdict",
     "plain assignment of resolvers (`schema.default_resolver = f`, `type.default_resolver = f`, `field.resolver = f`, "
@@ -1807,6 +1809,63 @@ def stream_permutations(ctx, batch):
     ctx.extra["permutation_cases"] = done
 
 
+def shuffle_deep(rng, d):
+    """the same description with EVERY list reordered (Lean: Props.C13.perm_deep): types, fields, arguments, enum
+    values, input fields, union members, implemented interfaces, directive arguments"""
+    n = copy.deepcopy(d)
+    rng.shuffle(n["types"])
+    for t in n["types"]:
+        for key in ("fields", "input_fields", "values", "members", "interfaces"):
+            if isinstance(t.get(key), list):
+                rng.shuffle(t[key])
+        for f in t.get("fields", []) or []:
+            if isinstance(f.get("args"), list):
+                rng.shuffle(f["args"])
+    for dd in n.get("directives", []) or []:
+        if isinstance(dd.get("args"), list):
+            rng.shuffle(dd["args"])
+    return n
+
+
+def stream_deep_permutations(ctx, batch):
+    """fixed quota in every run (own PRNG per case): valid schemas and schemas with one labelled violation, every list of
+    the description reordered: same verdict from the real validator, and the model agrees on the reordered dump"""
+    import random
+    done = 0
+    for i in range(ctx.n(10, 60)):
+        if ctx.time_left() < 15:
+            break
+        rng = random.Random(0xDEE9 + 7907 * i)
+        base = add_arg_cluster(base_schema(rng, rng.choice([0, 1]), cluster=True))
+        if i % 2:
+            base, labels, _ = apply_injections(rng, base, 1, allowed=[x for x in INJECTIONS if not x.name.startswith("res_")
+                                                                        and x.name not in ("no_query", "root_not_object", "union_member_kind")])
+        s0 = try_build(ctx, build_code, base)
+        if s0 is None:
+            continue
+        ref = real_validate(s0)[0]
+        for k in range(2):
+            d2 = shuffle_deep(rng, base)
+            s2 = try_build(ctx, build_code, d2)
+            if s2 is None:
+                continue
+            ctx.count()
+            got = real_validate(s2)[0]
+            ctx.stat("deep-perm:%s" % ref)
+            ctx.nontrivial(("deep-perm", canon_schema.canon(dump(s2))))
+            done += 1
+            if got != ref:
+                ctx.fail("verdict-depends-on-inner-order", "the verdict changes when the member lists of the description are reordered",
+                         {"how": "deep-perm", "desc": base, "desc_b": d2, "verdict_a": ref, "verdict_b": got})
+            dmp = dump(s2)
+
+            def cont(ans, verdict=got, dmp=dmp):
+                if (ans.get("valid") is True) != (verdict == "valid"):
+                    ctx.fail("corr:validate:deep-perm", "model verdict differs on a reordered schema", {"schema": dmp, "real": verdict}, kind="correspondence")
+            batch.add({"op": "validate", "schema": dmp}, cont)
+    ctx.extra["deep_permutation_cases"] = done
+
+
 def all_small_types(names, depth):
     cur = [("named", n) for n in names]
     out = list(cur)
@@ -2837,10 +2896,17 @@ def stream_histories(ctx, batch):
 # ---- L: the remaining public setters (structure edited by plain assignment) and the verdict cache --------------------
 
 STRUCTURAL_KINDS = ["field_type_input", "field_type_benign", "interfaces_object", "union_clear", "input_fields_clear",
-                    "input_field_type_object", "arg_type_object", "arg_default_added", "fields_extra", "type_name_reserved"]
+                    "input_field_type_object", "arg_type_object", "arg_default_added", "fields_extra", "type_name_reserved",
+                    # what proposed_fixes/C13-S12.patch added to the comparison, one kind per group of the fingerprint
+                    "object_name_reserved", "query_type_interface", "enum_values_clear", "arg_name_reserved",
+                    "field_inner_type_input"]
 # kinds that touch what fix C13-HHH3 made part of the cached verdict (the argument objects of a field and their
 # type / default, the number of fields): for these a stale verdict IS a failure of the property
 TRACKED_KINDS = {"arg_type_object", "arg_default_added", "fields_extra"}
+if X.cache_tracks_structure():
+    # fix C13-S12: the cached verdict stands for everything the validator reads: EVERY structural plain assignment must
+    # make validate() recompute (the cache machine asserts it: `assignStructureStep cfgCacheTracksStructure`)
+    TRACKED_KINDS = set(STRUCTURAL_KINDS)
 
 
 def apply_structural_setter(rng, s, kind):
@@ -2895,6 +2961,30 @@ def apply_structural_setter(rng, s, kind):
     elif kind == "type_name_reserved":
         cands = [f for t in objs for f in t.fields]
         rng.choice(cands).name = "__zz"
+    elif kind == "object_name_reserved":
+        rng.choice(objs).name = "__Zz"
+    elif kind == "query_type_interface":
+        ifaces = [t for t in user if isinstance(t, InterfaceType)]
+        if not ifaces:
+            return False
+        s.query_type = rng.choice(ifaces)
+    elif kind == "enum_values_clear":
+        from py_gql.schema import EnumType
+        enums = [t for t in user if isinstance(t, EnumType)]
+        if not enums:
+            return False
+        rng.choice(enums).values = []
+    elif kind == "arg_name_reserved":
+        cands = [a for t in objs for f in t.fields for a in f.arguments]
+        if not cands:
+            return False
+        rng.choice(cands).name = "__zz"
+    elif kind == "field_inner_type_input":
+        from py_gql.schema import ListType, NonNullType
+        cands = [f for t in objs for f in t.fields if isinstance(f.type, (ListType, NonNullType))]
+        if not cands or not inputs:
+            return False
+        rng.choice(cands).type.type = rng.choice(inputs)
     else:
         return False
     return True
@@ -3192,6 +3282,7 @@ def run(ctx):
     stream_setter_edits(ctx, batch)
     stream_every_position(ctx, batch)
     stream_permutations(ctx, batch)
+    stream_deep_permutations(ctx, batch)
     stream_histories(ctx, batch)
     stream_valid_and_injected(ctx, batch)
     stream_structural_setters(ctx, batch)
@@ -3222,6 +3313,9 @@ def replay(ctx, data):
         return bool(structural_case(ctx, None, inp["structural_seed"], inp["kind"]))
     if inp.get("how") == "address-reuse":
         return not any(address_reuse_case(ctx, inp["slot"])[0] for _ in range(5))
+    if inp.get("how") == "deep-perm":
+        a, b = build_code(_to_tuples(inp["desc"])), build_code(_to_tuples(inp["desc_b"]))
+        return real_validate(a)[0] == real_validate(b)[0]
     how = inp.get("how", "")
     if not how:
         return True     # not a failing-input replay (e.g. a record of what no longer checks)
